@@ -1,4 +1,4 @@
-use super::decoder::LF;
+use super::decoder::{CR, LF};
 use super::resp::{AdvanceIndex, ArrayIndex, BulkStrIndex, DataIndex, IndexedResp, RespIndex};
 use btoi::btoi;
 use bytes::BytesMut;
@@ -128,7 +128,11 @@ fn parse_line(buf: &[u8]) -> Result<(DataIndex, usize), ParseError> {
     }
 
     // s >= 2
-    // Just ignore the CR
+    // The byte in front of the LF must be the CR. Otherwise it is not a RESP line
+    // and dropping that byte would silently change the content.
+    if buf.get(lf_index - 1) != Some(&CR) {
+        return Err(ParseError::InvalidProtocol);
+    }
     let line = DataIndex(0, lf_index + 1 - 2);
     Ok((line, lf_index + 1))
 }
